@@ -12,7 +12,9 @@ from ufl.core.multiindex import Index, MultiIndex
 import uflgen
 from ufl.algorithms.analysis import extract_type
 from ufl.domain import extract_domains
-from elements import LagrangeElement
+from elements import FiniteElement, LagrangeElement
+from ufl.pullback import identity_pullback
+from ufl.sobolevspace import L2
 
 GDIM = {"interval": 1, "triangle": 2, "tetrahedron": 3}
 
@@ -35,6 +37,12 @@ class Gen:
         self.c = ufl.Constant(self.mesh, ())
         self.cv = ufl.Constant(self.mesh, (g,))
         self.q0 = ufl.Coefficient(sp((), 0))          # cellwise constant coefficient (degree 0)
+        # NOT cellwise constant although the largest contained Lagrange space is P0 (embedded_subdegree 0 <
+        # embedded_superdegree 1: P0-enriched / lowest-order face or edge elements)
+        sub0 = lambda sh: ufl.FunctionSpace(self.mesh, FiniteElement(  # noqa: E731
+            "P0 enriched", self.mesh.ufl_cell(), 1, sh, identity_pullback, L2, subdegree=0))
+        self.s0 = ufl.Coefficient(sub0(()))
+        self.r0 = ufl.Coefficient(sub0((g,)))
         self.x = ufl.SpatialCoordinate(self.mesh)
         self.J = ufl.Jacobian(self.mesh)
         self.K = ufl.JacobianInverse(self.mesh)
@@ -87,7 +95,9 @@ class Gen:
             if k == 2:
                 return self.pick(self.T)[i, self.idx(free)]
             return self.pick(self.T)[self.fixed(), i]
-        k = self.rng.randrange(16)
+        k = self.rng.randrange(17)
+        if k == 16:
+            return self.pick([self.s0, self.r0[self.fixed()]])
         if k <= 3:
             return self.pick(self.f)
         if k == 4:
@@ -178,7 +188,16 @@ class Gen:
         if op == "trgrad":
             return ufl.tr(self.pick([ufl.grad, ufl.nabla_grad])(self.dom(self.vector(d - 1, free))))
         if op == "restr":
-            t = self.pick(self.f + [self.v[0][self.fixed()]])
+            # a restricted sub-expression (also products whose derivative is cellwise constant but side dependent)
+            k = self.rng.randrange(4)
+            if k == 0:
+                t = self.pick(self.f + [self.v[0][self.fixed()]])
+            elif k == 1:
+                t = self.pick([self.q0, self.n[self.fixed()], self.detJ, self.s0]) * self.x[self.fixed()]
+            else:
+                t = self.scalar(d - 1, [])
+                if extract_type(ufl.as_ufl(t), C.Restricted) or not extract_domains(ufl.as_ufl(t)):
+                    t = self.pick(self.f)
             self.budget -= 1
             return t(self.pick(["+", "-"]))
         return self.leaf_scalar(free)
@@ -197,7 +216,9 @@ class Gen:
     # ------------------------------------------------------------------ vectors (shape (g,))
     def leaf_vector(self, free):
         self.budget -= 1
-        k = self.rng.randrange(8)
+        k = self.rng.randrange(9)
+        if k == 8:
+            return self.r0
         if k <= 2:
             return self.pick(self.v)
         if k == 3:
@@ -342,6 +363,8 @@ def generate(rng, cell, depth, order, kind=None, max_leaves=6, allow=None):
     gen = Gen(rng, cell, max_leaves=max_leaves, allow=allow)
     kind = kind or gen.pick(["scalar", "scalar", "vector", "matrix"])
     body = {"scalar": gen.scalar, "vector": gen.vector, "matrix": gen.matrix}[kind](depth, [])
+    if gen.rng.random() < 0.15 and not extract_type(ufl.as_ufl(body), C.Restricted) and extract_domains(ufl.as_ufl(body)):
+        body = body(gen.pick(["+", "-"]))           # derivative operators applied OUTSIDE a restriction
     e, names = gen.wrap(body, order)
     ctx = gen.rng.random()
     how = "bare"
